@@ -52,6 +52,12 @@ class E1Env:
         comp = {"context_behavior": mode, "autodiscover": False}
         comp.update(extra_settings or {})
         src = built.page_src if variant != "dynamic" else built.dynamic_source()
+        tmp = None
+        if variant == "dynamic-all":
+            # every component tag, in the page and in the class templates, written through the dynamic component
+            self.n += 1
+            tmp = pg.Built(built.program, f"p{self.n}", dynamic_all=True)
+            src = tmp.page_src
         try:
             with self.override_settings(COMPONENTS=comp):
                 ctx = self.Context(dict(page_ctx if page_ctx is not None else built.program.get("page_ctx", {})))
@@ -62,6 +68,8 @@ class E1Env:
             return ("exc", type(e).__name__, str(e)[:400])
         finally:
             self.inst_limit = None
+            if tmp is not None:
+                tmp.dispose()
         return ("ok", raw if keep_ids else normalise(raw), raw)
 
 
